@@ -94,6 +94,12 @@ type run struct {
 	faultHit atomic.Int32
 	ctxHit   atomic.Int32
 	nErr     atomic.Int32
+
+	// written by the generator / the calling goroutine only, read by the census: they add no
+	// happens-before edge between the user functions of a call
+	genSent       atomic.Int32 // sends of the generator that were received
+	genReturned   atomic.Bool  // the generator function has returned (or panicked)
+	ctxDoneAtCall atomic.Bool  // ctx.Err() != nil immediately before the call was made
 }
 
 func newRun(c *kit.Case, id string, p plan) *run {
@@ -218,7 +224,26 @@ func (r *run) act(kind, then string, here pos, cancel func(error)) bool {
 
 // ---------------------------------------------------------------- user functions
 
+// genSend is the generator's send of one item on the source channel. It is the
+// only place where a generator waits for core/mr (every other wait of a user
+// function is a hold on a harness channel): a goroutine whose innermost
+// non-runtime frame is genSend is parked in that send. The send also listens on
+// the harness's abort channel, so that a generator whose channel was abandoned by
+// the call can be released after it has been reported (census_test.go).
+//
+//go:noinline
+func (r *run) genSend(source chan<- int, i int) bool {
+	select {
+	case source <- i:
+		r.genSent.Add(1)
+		return true
+	case <-r.abort:
+		return false
+	}
+}
+
 func (r *run) ufGen(source chan<- int) {
+	defer r.genReturned.Store(true)
 	for i := 0; i < r.p.Items; i++ {
 		if r.point(roleGen, i, phBefore, nil) {
 			return
@@ -226,9 +251,7 @@ func (r *run) ufGen(source chan<- int) {
 		if r.p.Inflight && i == 1 {
 			r.hold(r.genHold)
 		}
-		select {
-		case source <- i:
-		case <-r.abort:
+		if !r.genSend(source, i) {
 			return
 		}
 		if r.point(roleGen, i, phAfter, nil) {
